@@ -251,6 +251,15 @@ def run(ctx):
                     rows.extend(mk_rows([extra]))
                 ctx.count("trajectories_edited_in_place")
                 check_traj(ctx, rows, dict(case, rows=spec2, edited_in_place=True), hit=hit)
+                # rows replaced one for one (the list keeps its length): times and distances shifted, one row moved
+                spec3 = [[round(r[0] + 0.05, 6), round(r[1] + 41.0, 4)] + list(r[2:]) for r in spec2]
+                k = rng.randrange(len(spec3))
+                lo = spec3[k - 1][1] if k > 0 else spec3[k][1] - 30.0
+                hi = spec3[k + 1][1] if k + 1 < len(spec3) else spec3[k][1] + 30.0
+                spec3[k] = [spec3[k][0], round(rng.uniform(lo, hi), 4)] + list(spec3[k][2:])      # stays between its neighbours
+                rows[:] = mk_rows(spec3)
+                ctx.count("trajectories_edited_in_place")
+                check_traj(ctx, rows, dict(case, rows=spec3, edited_in_place="rows replaced one for one"), hit=hit)
         elif k < 0.85:
             up = rng.randint(0, 12)
             top = rng.choice([1, 1, 2, 3])
